@@ -6,6 +6,8 @@
 //@harness name=create_shape_second_state_unvoiced tier=quick label=bounded(durations=[1,2],static-window,concrete-voicing) props=C01,C05,C11 timeout=600
 //@harness name=create_shape_first_state_unvoiced tier=quick label=bounded(durations=[1,2],static-window,concrete-voicing) props=C01,C05,C11 timeout=600
 //@harness name=create_zero_precision_at_edges tier=quick label=bounded(durations=[1,1,1],delta-window,concrete-data) props=C05 timeout=900
+//@harness name=create_zero_precision_width5 tier=quick label=bounded(5-frames,width-5-window,concrete-data) props=C05 timeout=900
+//@harness name=create_zero_precision_next_to_unvoiced tier=quick label=bounded(3-frames,delta-window,concrete-data) props=C05,C11 timeout=900
 //@harness name=hole_gv_switch_contract tier=quick label=bounded(2-states,durations=[1,2],concrete) props=C12 timeout=600
 //@harness name=par_without_gv_is_plain_solve tier=quick label=bounded(T=2) props=C12 timeout=600
 //@harness name=gv_no_eligible_frame_returns_input tier=quick label=bounded(T=2) props=C12 timeout=600
@@ -72,6 +74,54 @@ fn create_zero_precision_at_edges() {
     let adj = MlpgAdjust::new(1.0, 0.5, ModelStream { vector_length: 1, stream, gv: None, windows: &windows });
     let out = adj.create(&[1, 1, 1]);
     assert!(out.len() == 3);
+    kani::cover!(true);
+}
+
+fn check_params_w5(windows: &Windows, parameters: Vec<Vec<MeanVari>>) -> MlpgMatrix {
+    // 5 voiced frames, windows {static, width-5 delta}: the dynamic window spans 2 frames to either side,
+    // so only the middle frame (distance 2 from both edges) keeps its dynamic observation
+    assert!(parameters.len() == 2 && parameters[1].len() == 5);
+    assert!(parameters[1][0].1 == 0.0 && parameters[1][1].1 == 0.0);
+    assert!(parameters[1][2].1 == 0.5);
+    assert!(parameters[1][3].1 == 0.0 && parameters[1][4].1 == 0.0);
+    let mut t = 0;
+    while t < 5 { assert!(parameters[0][t].1 == 0.5); t += 1; }
+    MlpgMatrix::verif_dummy(windows.size(), 5)
+}
+#[kani::proof]
+#[kani::unwind(9)]
+#[kani::stub(MlpgMatrix::calc_wuw_and_wum, check_params_w5)]
+fn create_zero_precision_width5() {
+    let windows = Windows::new(vec![Window::new(vec![1.0]), Window::new(vec![-0.2, -0.1, 0.0, 0.1, 0.2])]);
+    let st = |k: f64| (vec![MeanVari(k, 2.0), MeanVari(k + 0.5, 2.0)], f64::MAX);
+    let stream = StreamParameter::new(vec![st(0.0), st(1.0), st(2.0), st(3.0), st(4.0)]);
+    let adj = MlpgAdjust::new(1.0, 0.5, ModelStream { vector_length: 1, stream, gv: None, windows: &windows });
+    let out = adj.create(&[1, 1, 1, 1, 1]);
+    assert!(out.len() == 5);
+    kani::cover!(true);
+}
+
+fn check_params_unvoiced(windows: &Windows, parameters: Vec<Vec<MeanVari>>) -> MlpgMatrix {
+    // voiced, unvoiced, voiced: the unvoiced frame is removed and both neighbours lose their dynamic observation
+    assert!(parameters.len() == 2 && parameters[0].len() == 2 && parameters[1].len() == 2);
+    assert!(parameters[0][0].0 == 0.0 && parameters[0][1].0 == 20.0);
+    assert!(parameters[0][0].1 == 0.5 && parameters[0][1].1 == 0.5);
+    assert!(parameters[1][0].1 == 0.0 && parameters[1][1].1 == 0.0);
+    MlpgMatrix::verif_dummy(windows.size(), 2)
+}
+#[kani::proof]
+#[kani::unwind(8)]
+#[kani::stub(MlpgMatrix::calc_wuw_and_wum, check_params_unvoiced)]
+fn create_zero_precision_next_to_unvoiced() {
+    let windows = Windows::new(vec![Window::new(vec![1.0]), Window::new(vec![-0.5, 0.0, 0.5])]);
+    let stream = StreamParameter::new(vec![
+        (vec![MeanVari(0.0, 2.0), MeanVari(1.0, 2.0)], 0.9),
+        (vec![MeanVari(10.0, 2.0), MeanVari(11.0, 2.0)], 0.1),
+        (vec![MeanVari(20.0, 2.0), MeanVari(21.0, 2.0)], 0.9),
+    ]);
+    let adj = MlpgAdjust::new(1.0, 0.5, ModelStream { vector_length: 1, stream, gv: None, windows: &windows });
+    let out = adj.create(&[1, 1, 1]);
+    assert!(out.len() == 3 && out[1][0] == NODATA);
     kani::cover!(true);
 }
 
